@@ -189,7 +189,13 @@ class Gen:
             if it.get('by'):
                 key_for[it['by']['ix']] = it
         fields = []
+        rebind = self.s.classes[cname].get('rebind')
         for i, it in enumerate(items):
+            if rebind is not None and i == rebind:
+                # the ProtocolVersion item the reader rebinds kmip_version from: announce the version generated for
+                pv = self.s.active('ProtocolVersion', v)
+                fields.append((it, [('S', 'ProtocolVersion', [(pv[0], [('P', 'PInt', v // 10)]), (pv[1], [('P', 'PInt', v % 10)])])]))
+                continue
             if counts is not None:
                 n = counts[i]
             elif it['mult'] == 'Req':
